@@ -63,6 +63,7 @@ Ch == 0..(N - 1)
 \* optional flags (absent = FALSE): trace validation mode, the caller may present the previous waker again
 TraceMode == "trace" \in DOMAIN cfg /\ cfg.trace
 Reuse == "reuse" \in DOMAIN cfg /\ cfg.reuse
+Repollable == TraceMode \/ ("repoll" \in DOMAIN cfg /\ cfg.repoll)
 Std == cfg.mode = "std"
 Try == cfg.kind = "try_join"
 Arr == cfg.variant = "arr"
@@ -373,6 +374,15 @@ Quiesce ==
   /\ UNCHANGED <<cfg, st, cnt, consumed, out, bits, count, parent, pc, idx, ans, pend, polls, handed, firedL,
                  gen, wokenL, started, final, nfire, nstale, nspur, ninfire, seen, conc>>
 
+\* one more poll after the final result: `assert!(!consumed)` / `completed == LEN` panics, the caller drops the future
+\* (C03: no child is polled)
+Repoll ==
+  /\ pc = "idle" /\ final /\ Repollable /\ N > 0
+  /\ gen' = gen + 1 /\ pc' = "dropped"
+  /\ Emit(<<[e |-> "repoll", g |-> gen + 1], [e |-> "panic", at |-> "repoll"], Ev("drop")>> \o DropEvents \o <<Ev("dropped")>>)
+  /\ UNCHANGED <<cfg, st, cnt, consumed, out, bits, count, parent, idx, ans, pend, polls, handed, firedL,
+                 wokenL, started, final, nfire, nstale, nspur, ninfire, seen, conc, quiesced>>
+
 \* end of the run (the harness writes "end"); nothing happens afterwards
 Finish ==
   /\ pc = "dropped" /\ pc' = "end"
@@ -381,7 +391,7 @@ Finish ==
                  gen, wokenL, started, final, nfire, nstale, nspur, ninfire, seen, conc, quiesced>>
 
 Next ==
-  \/ Poll \/ PollReuse \/ PollBegin \/ ScanStep \/ ChildAnswer \/ ChildPanic \/ Drop \/ Quiesce \/ Finish
+  \/ Poll \/ PollReuse \/ PollBegin \/ ScanStep \/ ChildAnswer \/ ChildPanic \/ Drop \/ Quiesce \/ Finish \/ Repoll
   \/ \E c \in Ch : \E k \in 0..(polls[c] - 1) : Wake(c, k) \/ InFire(c, k) \/ ThreadWake(c, k)
 
 \* delivery of an owed wake-up (used for fairness only): does not consume budget
